@@ -162,6 +162,9 @@ pub fn replay_file(args: &Args, path: &str) -> i32 {
     let text = std::fs::read_to_string(path).unwrap_or_else(|e| engine::machinery_failure(&format!("{path}: {e}")));
     let v: Value = serde_json::from_str(&text).unwrap_or_else(|e| engine::machinery_failure(&format!("{path}: {e}")));
     let r = if v.get("replay").is_some() { &v["replay"] } else { &v };
+    if r["regime"].as_str() == Some("ELECTION-N") {
+        return crate::nsize::replay(r);
+    }
     if r["regime"].as_str() == Some("C30") {
         return crate::c30::replay(args, r);
     }
